@@ -52,3 +52,45 @@ Definition judge_perftx (l : list Z) : list Z :=
       else if perft_fast (Z.to_nat d) (abs b) =? n then [1] else [0; 1]
   | _ => [0; 9]
   end.
+
+(* ------------------------------------------------------------------------------------------ *)
+(* stream c01reach: board-in(root) ++ [n; m_1..m_n] ++ observed [#playable; playable...]
+   The reached position is recomputed from the rules alone (iterated succ_spec from abs root); the
+   playable moves the implementation reports after playing the moves must be exactly its legal moves.
+   [1] outside the domain (root not valid, or a move of the list not legal where it is played). *)
+Fixpoint spec_play (p : pos) (ms : list N) : option pos :=
+  match ms with
+  | [] => Some p
+  | m :: r => if legal_spec p m then spec_play (succ_spec p m) r else None
+  end.
+
+Definition judge_c01reach (l : list Z) : list Z :=
+  match decode_board l with
+  | Some (b, n :: rest) =>
+      let p0 := abs b in
+      if negb (valid p0) then [1] else
+      let ms := map Z.to_N (firstn (Z.to_nat n) rest) in
+      match spec_play p0 ms with
+      | None => [1]
+      | Some p =>
+          let '(pl, _) := take_counted (skipn (Z.to_nat n) rest) in
+          let pl := map Z.to_N pl in
+          let lg := legal_moves_fast p in
+          if negb (subset pl lg) then [0; 1]
+          else if negb (subset lg pl) then [0; 2]
+          else if negb (nodup_b pl) then [0; 3]
+          else [1]
+      end
+  | _ => [0; 9]
+  end.
+
+(* model side of the stream: play the moves on the engine model, report its playable moves *)
+From Chess3 Require Import Model.Board Model.Movegen Gen.Zobrist Spec.Play.
+Definition run_c01reach (l : list Z) : list Z :=
+  match decode_board l with
+  | Some (b, n :: rest) =>
+      let ms := map Z.to_N (firstn (Z.to_nat n) rest) in
+      let pl := playable zob_real (run zob_real b ms) in
+      Z.of_nat (length pl) :: map Z.of_N pl
+  | _ => []
+  end.
